@@ -96,6 +96,21 @@ func runSetup(vm *ds.Context, setup []string) {
 	}
 }
 
+// sameModuloDictOrder: the process text prints dict values through ToString, whose entry
+// order is Go map order (a one-key literal can gain keys by item assignment); two texts that
+// contain a dict rendering and are permutations of each other's bytes are taken to be the same.
+func sameModuloDictOrder(a, b string) bool {
+	if len(a) != len(b) || !strings.Contains(a, "{'") {
+		return false
+	}
+	var ca, cb [256]int
+	for i := 0; i < len(a); i++ {
+		ca[a[i]]++
+		cb[b[i]]++
+	}
+	return ca == cb
+}
+
 func clip(s string) string {
 	if len(s) > 700 {
 		return s[:700] + "…"
@@ -180,6 +195,10 @@ func checkTransparent(c TCase, s *rt.Section) (*rt.Failure, tInfo) {
 	}
 	for _, x := range list {
 		if x.a != x.b {
+			if x.what == "detail" && sameModuloDictOrder(x.a, x.b) {
+				s.Class("detail-differs-only-in-dict-order")
+				continue
+			}
 			return s.NewFailure("same-outcome", "transp:"+x.what, c, fmt.Sprintf("with extensions %s = %s", x.what, clip(x.b)),
 				fmt.Sprintf("plain VM %s = %s", x.what, clip(x.a))), info
 		}
@@ -435,7 +454,7 @@ func checkActing(c ACase, s *rt.Section) (f *rt.Failure, calls int) {
 	wantErr := oL.isErr || refFail
 	if oC.isErr != wantErr || (!oC.isErr && oC.rest != oL.rest) {
 		sig := "act:error-ness"
-		if (oC.isErr || strings.TrimSpace(oC.rest) != "") && !wantErr && len(rec.calls) < len(refLog) {
+		if c.Guarded || ((oC.isErr || strings.TrimSpace(oC.rest) != "") && !wantErr && len(rec.calls) < len(refLog)) {
 			// the operand text was not taken as the custom syntax: syntax error or unparsed rest
 			sig = notRecognisedSig("act", c.Guarded)
 		}
@@ -511,7 +530,7 @@ func checkActing(c ACase, s *rt.Section) (f *rt.Failure, calls int) {
 		hm2.Text = "explicit"
 		if _, err := install(exp, c.Exts, c.Hooks, rec2, hm2); err == nil {
 			oE := runOne(exp, c.Src)
-			if oE.pi == nil && !oE.isErr && oE.detail != oC.detail {
+			if oE.pi == nil && !oE.isErr && oE.detail != oC.detail && !sameModuloDictOrder(oE.detail, oC.detail) {
 				return s.NewFailure("fallback-text", "act:fallback-text", c, fmt.Sprintf("handler returns \"\": process text %q", clip(oC.detail)),
 					fmt.Sprintf("as when it returns the matched text itself: %q", clip(oE.detail))), calls
 			}
@@ -954,7 +973,7 @@ func checkAnalog(c XCase, s *rt.Section) (f *rt.Failure, calls int) {
 	toD := func(x string) string { return strings.ReplaceAll(x, "X", "d") }
 	if oD.isErr != oX.isErr || (!oD.isErr && toD(oX.rest) != oD.rest) {
 		sig := "analog:error-ness"
-		if !oD.isErr && (oX.isErr || strings.TrimSpace(oX.rest) != "") {
+		if c.Guarded || (!oD.isErr && (oX.isErr || strings.TrimSpace(oX.rest) != "")) {
 			sig = notRecognisedSig("analog", c.Guarded)
 		}
 		return s.NewFailure("same-as-dice", sig, c,
@@ -968,6 +987,10 @@ func checkAnalog(c XCase, s *rt.Section) (f *rt.Failure, calls int) {
 	}
 	for _, x := range list {
 		if x.a != x.b {
+			if x.what == "detail" && sameModuloDictOrder(x.a, x.b) {
+				s.Class("detail-differs-only-in-dict-order")
+				continue
+			}
 			return s.NewFailure("same-as-dice", "analog:"+x.what, c, fmt.Sprintf("custom <n>X<m>: %s = %s", x.what, clip(x.b)),
 				fmt.Sprintf("built-in <n>d<m>: %s = %s", x.what, clip(x.a))), calls
 		}
